@@ -138,7 +138,7 @@ def laws(ds, ref):
                     (lambda idx=idx: ds.filter(fns.is_small, lazy=False)[idx]), None
 
 
-def check_state(ds, ref, program, st, viols):
+def check_state(ds, ref, program, st, viols, tags=frozenset()):
     n = ref.n()
     for name, params, lhs, rhs, only in laws(ds, ref):
         st['transitions'] += 1
@@ -156,7 +156,7 @@ def check_state(ds, ref, program, st, viols):
         st['law_instances'] += 1
         d = differ(a, b, only)
         if d:
-            key = f'law/{name}/{d[0]}'
+            key = f'law/{name}/{d[0]}' + ''.join('@' + t for t in sorted(tags))
             if key not in viols:
                 viols[key] = common.Violation(
                     'C16', key, f'{seqmc.describe(program)} law {name} {params}: {d[0]} differs: {d[1]} vs {d[2]}',
@@ -169,9 +169,9 @@ def _task(args):
     viols = {}
     samples = []
 
-    def rec(ds, ref, program, d):
+    def rec(ds, ref, program, d, tags=frozenset()):
         st['states'] += 1
-        check_state(ds, ref, program, st, viols)
+        check_state(ds, ref, program, st, viols, tags)
         if d == depth and len(samples) < 1:
             samples.append({'program': program, 'laws_checked': st['law_instances']})
         if d >= depth:
@@ -187,7 +187,8 @@ def _task(args):
                 cds = B.apply(ds, ref, op)
             except BaseException:       # noqa: BLE001  (decided by C01)
                 continue
-            rec(cds, cref, {'source': program['source'], 'ops': program['ops'] + [op]}, d + 1)
+            rec(cds, cref, {'source': program['source'], 'ops': program['ops'] + [op]}, d + 1,
+                tags | seqmc.structural_tags(ref, op))
 
     ref = R.source(source)
     try:
@@ -203,7 +204,7 @@ def _task(args):
             cref = R.apply(ref, first)
             if not cref.has_err() and cref.finite:
                 cds = B.apply(ds, ref, first)
-                rec(cds, cref, {'source': source, 'ops': [first]}, 1)
+                rec(cds, cref, {'source': source, 'ops': [first]}, 1, seqmc.structural_tags(ref, first))
         except (R.Refuse, Exception):       # noqa: BLE001
             pass
     return st, list(viols.values()), samples
@@ -249,7 +250,12 @@ def replay(data):
         ds = ds2
     st = collections.Counter()
     viols = {}
-    check_state(ds, ref, program, st, viols)
+    tags = frozenset()
+    r2 = R.source(program['source'])
+    for op in program['ops']:
+        tags = tags | seqmc.structural_tags(r2, op)
+        r2 = R.apply(r2, op)
+    check_state(ds, ref, program, st, viols, tags)
     res.violations = [common.Violation.from_json(v) for v in viols.values()]
     res.coverage.update(states=1, transitions=st['transitions'])
     return res
